@@ -39,6 +39,9 @@ pub(crate) struct Mutations {
     /// Location of the last written entity since the last call of [`Self::start_entity_mutations`].
     entity_location: Option<EntityLocation>,
 
+    /// Whether an acknowledgment of the message with the current entity should confirm it.
+    entity_ack: bool,
+
     /// Intermediate buffers to reuse allocated memory.
     range_buffer: Vec<Vec<Range<usize>>>,
     entities_buffer: Vec<Vec<EntityMutations>>,
@@ -56,6 +59,22 @@ impl Mutations {
     /// See [`Self::add_entity`] and [`Self::add_component`].
     pub(crate) fn start_entity(&mut self) {
         self.entity_location = None;
+        self.entity_ack = true;
+    }
+
+    /// Excludes the current entity from acknowledgment of the message it will be written into.
+    ///
+    /// Needed when the entity has a mutation that wasn't sent on this tick due to its send rate.
+    /// Otherwise an acknowledgment of other mutations for this entity would mark it as received.
+    pub(crate) fn skip_entity_ack(&mut self) {
+        self.entity_ack = false;
+        let mutations = self.entity_location.and_then(|location| match location {
+            EntityLocation::Related { index } => self.related[index].last_mut(),
+            EntityLocation::Standalone => self.standalone.last_mut(),
+        });
+        if let Some(mutations) = mutations {
+            mutations.ack = false;
+        }
     }
 
     /// Returns `true` if [`Self::add_entity`] were called since the last
@@ -74,6 +93,7 @@ impl Mutations {
         let components = self.range_buffer.pop().unwrap_or_default();
         let mutations = EntityMutations {
             entity,
+            ack: self.entity_ack,
             ranges: ChangeRanges {
                 entity: entity_range,
                 components_len: 0,
@@ -200,7 +220,12 @@ impl Mutations {
                 body_size = 0;
             }
 
-            entities.extend(chunk.iter().map(|mutations| mutations.entity));
+            entities.extend(
+                chunk
+                    .iter()
+                    .filter(|mutations| mutations.ack)
+                    .map(|mutations| mutations.entity),
+            );
             chunks_range.end += 1;
             body_size += mutations_size;
         }
@@ -292,6 +317,9 @@ struct EntityMutations {
     /// Used to associate entities with the mutate message index that the client
     /// needs to acknowledge to consider entity mutations received.
     entity: Entity,
+
+    /// Whether an acknowledgment of the message should confirm this entity.
+    ack: bool,
 
     /// Component mutations that happened in this tick.
     ///
